@@ -59,7 +59,7 @@ static void do_rand(int t, void *p, size_t n) {
 }
 static void rand_a(void *p, size_t n) { do_rand(0, p, n); }
 static void rand_b(void *p, size_t n) { do_rand(1, p, n); }
-static uint64_t time_a(void) { E.n_time++; E.last_table = 0; logc('T'); return E.clock[0]; }
+static uint64_t time_a(void) { E.n_time++; E.last_table = 0; logc('T'); if (E.clock_seq_n > 0) return E.clock_seq[E.clock_seq_i++ % E.clock_seq_n]; return E.clock[0]; }
 static uint64_t time_b(void) { E.n_time++; E.last_table = 1; logc('T'); return E.clock[1]; }
 
 void (*E_kdf_hook)(uint8_t *key, size_t keylen);   /* called after the key is written (C04 page protection) */
